@@ -17,6 +17,13 @@
 (*                Seek(At()+1) from the start (strict = the list has no    *)
 (*                duplicates; otherwise not done)                          *)
 (*     intact     the encoded bytes were not modified (informational)      *)
+(*   cross[g]   which decoder reads which encoding: groups of combos        *)
+(*              "<encoding>><decoder entry point>" with the same outcome    *)
+(*              (err, panic, or the drained list as runs).  Encodings: dvs, *)
+(*              dss, dss2, be32 (raw big-endian postings), and dvs/dss with *)
+(*              a damaged, truncated or missing prefix, and the empty blob; *)
+(*              entry points: hdr (decodePostings, dispatch on the prefix), *)
+(*              cached (decodeCachedPostings), dvs, dss (own decoders)      *)
 (* Judged with the property-level operators of PostingsCodec only.         *)
 (***************************************************************************)
 EXTENDS TraceLib, PostingsCodec
@@ -46,7 +53,20 @@ JudgeGroup(e, g) ==
                      ELSE {"next-behaves-as-on-the-original"})
                \cup (IF Len(g.out) = Len(e.ops) /\ g.operr = "" THEN {} ELSE {"every-call-answered-without-error"}))
 
-JudgeLine(e) == UNION { JudgeGroup(e, e.res[g]) : g \in DOMAIN e.res }
+(* "encoded with any of the cache codecs decodes to the same list": the entry points that must   *)
+(* read an encoding do; and no entry point ever hands out a DIFFERENT list for any blob (it      *)
+(* returns the list or refuses) - a damaged or foreign prefix is rejected, not misread.          *)
+MustDecode == { "dvs>hdr", "dvs>cached", "dvs>dvs", "dss>hdr", "dss>cached", "dss>dss",
+                "dss2>hdr", "dss2>cached", "dss2>dss", "be32>cached" }
+JudgeCross(e) ==
+    LET ok(g) == e.cross[g].err = "" /\ e.cross[g].panic = ""
+        tried == UNION { Range(e.cross[g].combos) : g \in DOMAIN e.cross }
+        read == UNION { Range(e.cross[g].combos) : g \in { x \in DOMAIN e.cross : ok(x) /\ e.cross[x].decoded = e.list } }
+    IN  (IF \A g \in DOMAIN e.cross : e.cross[g].panic = "" THEN {} ELSE {"no-panic"})
+        \cup (IF \A g \in DOMAIN e.cross : ok(g) => e.cross[g].decoded = e.list THEN {} ELSE {"no-decoder-misreads-an-encoding"})
+        \cup (IF (MustDecode \cap tried) \subseteq read THEN {} ELSE {"matching-decoder-reads-its-encoding"})
+
+JudgeLine(e) == UNION { JudgeGroup(e, e.res[g]) : g \in DOMAIN e.res } \cup JudgeCross(e)
 
 (* Model conformance (never a verdict): the algorithm-level decoder predicts every <<ret, at>>  *)
 (* (chunking is invisible - PostingsCodecMC - so the one-buffer decoder is used; short lists).  *)
